@@ -320,6 +320,41 @@ def run(prog, rep):
                       f'iteration has not set it: when the node has the first delegation property but not the second, the value decoded for the '
                       f'first one is taken for the second as well (label delegations written into the capacity property, or a merge refused '
                       f'because "both sides speak" although only one does)')
+    # ---- R7: relationships are part of what a model contributes ----
+    rep.rule('R7', 'unmerge can take away the relationships only the unmerged model contributed (contributor recorded on relationships, or relationships removed)', floor=1)
+    umi = inline(prog, cbm, um)
+    mai = inline(prog, cbm, ma)
+    REL_REMOVERS = ('remove_edge', 'remove_edges_from', 'unlink', 'delete_link', 'remove_link', 'del_link', 'delete_relationship')
+    removes_rel = [c for c in ast.walk(umi) if isinstance(c, ast.Call) and call_name(c) in REL_REMOVERS]
+    cypher_del = [x for x in ast.walk(umi) if isinstance(x, ast.Constant) and isinstance(x.value, str) and 'delete r' in x.value.lower().replace('  ', ' ')]
+    records_rel = [c for c in ast.walk(mai) if isinstance(c, ast.Call) and call_name(c) in ('update_link_property', 'update_link_properties')]
+    rep.instance('R7', f'merge_adm records a contributor on relationships: {bool(records_rel)}; unmerge_adm removes relationships between nodes that stay: '
+                       f'{bool(removes_rel or cypher_del)}')
+    if not records_rel and not (removes_rel or cypher_del):
+        rep.violation('R7', loc(mod, um), 'Neo4jCBMGraph.unmerge_adm', 'relationships contributed by one model only are never removed',
+                      'unmerge_adm deletes the nodes whose contributor list becomes empty and nothing else; a relationship that only the unmerged '
+                      'model contributed, between two nodes that stay because other models contributed them too (two adjacent stitch nodes), has '
+                      'no record of its contributor and is still there after the unmerge: merge followed by unmerge does not restore the '
+                      'previous combined model')
+    # ---- R8: the node merge of the in-memory backend leaves none of networkx's bookkeeping on the links (shared with C05) ----
+    rep.rule('R8', 'merge_nodes removes the contraction bookkeeping from every link of the merged node', floor=1)
+    from .c05 import contraction_removed_from_all_edges
+    from .. import nxgraph as nxg_
+    nxpg_ = prog.cls(nxg_.NXPG)
+    mn_ = nxpg_.methods.get('merge_nodes')
+    if mn_ is None:
+        raise AnalysisError('NetworkXPropertyGraph.merge_nodes vanished')
+    mni_ = inline(prog, nxpg_, mn_)
+    cn_ = [c for c in ast.walk(mni_) if isinstance(c, ast.Call) and call_name(c) == 'contracted_nodes']
+    no_store_ = any(k.arg == 'store_contraction_as' and isinstance(k.value, ast.Constant) and k.value.value is None for c in cn_ for k in c.keywords)
+    ok8 = no_store_ or contraction_removed_from_all_edges(mni_)
+    rep.instance('R8', f'NetworkXPropertyGraph.merge_nodes: contraction attribute removed from every link of the merged node: {ok8}')
+    if not ok8:
+        rep.violation('R8', loc(nxpg_.module, mn_), 'NetworkXPropertyGraph.merge_nodes', 'contraction attribute left on (some of) the merged links',
+                      'nx.contracted_nodes leaves a `contraction` attribute (a dict keyed by internal ids) on every link both nodes had in common; '
+                      'unless it is removed from all links of the merged node, the combined model carries a property no model contributed: the '
+                      'result depends on merge order, unmerge does not restore the previous model, and serialization fails')
+
     # ---- R6 ----
     utxt = ast.unparse(um)
     gid = [a.arg for a in um.args.kwonlyargs + um.args.args if a.arg != 'self'][0]
